@@ -123,7 +123,7 @@ def gen(groups=None, repo=None):
     os.makedirs(OUT_V, exist_ok=True); os.makedirs(OUT_J, exist_ok=True)
     os.makedirs(os.path.join(VERIF, '.cache'), exist_ok=True)
     errs = []
-    for name in (groups or list(GROUPS)):
+    for name in (list(GROUPS) if groups is None else groups):
         g = GROUPS[name]
         vals, err = run_probe(name, g, repo)
         if vals is None:
